@@ -455,11 +455,16 @@ def evaluate(case):
                            {"only_pandas": only_pd, "only_polars": only_pl, "features": feats})
             elif {(c, r) for c, r in fa if r != "check" or (c, "dtype") not in fa} != \
                     {(c, r) for c, r in fb if r != "check" or (c, "dtype") not in fb}:
-                if fb - fa == {(None, "multiple_fields_uniqueness")} and not (fa - fb) and _joint_dups_only_through_nulls(spec, table):
+                fa_, fb_ = set(fa), set(fb)
+                mfu = (None, "multiple_fields_uniqueness")
+                if mfu in fb_ - fa_ and _joint_dups_only_through_nulls(spec, table):
                     # pandas raises DUPLICATES too but drops the null-holding failure cases from its report
+                    # (scored on its own, so that a second difference in the same report keeps its own bucket)
                     ev.add("failing-cells-differ:pandas-omits-null-duplicates", {"joint": True, "features": feats})
-                else:
-                    ev.add("frame-level-failures-differ", {"pandas": sorted(map(str, fa)), "polars": sorted(map(str, fb)), "features": feats})
+                    fb_.discard(mfu)
+                if {(c, r) for c, r in fa_ if r != "check" or (c, "dtype") not in fa_} != \
+                        {(c, r) for c, r in fb_ if r != "check" or (c, "dtype") not in fb_}:
+                    ev.add("frame-level-failures-differ", {"pandas": sorted(map(str, fa_)), "polars": sorted(map(str, fb_)), "features": feats})
     return ev
 
 
